@@ -120,8 +120,10 @@ pub fn run_check(prop: &str, tier: &str) -> i32 {
         }
         "C14" => crate::fparse::check(prop, tier),
         "C15" => crate::parsex::check(prop, tier),
+        "C16" => crate::seqfresh::check(prop, tier),
         "C17" => histex_check(prop, tier, &[hp("trace", 4, 6), hp("rot", 3, 4)], &["C17."], HX),
         "C18" => histex_check(prop, tier, &[hp("recaps", 3, 4)], &["C18."], HX),
+        "C19" => crate::sched::check(prop, tier),
         _ => machinery(&format!("no check for {prop}")),
     }
 }
@@ -154,6 +156,19 @@ pub fn replay(path: &str) -> i32 {
                 0
             }
         },
+        Some("sched") => {
+            let sch: Vec<usize> = v["schedule"].as_array().map(|a| a.iter().filter_map(|x| x.as_u64().map(|n| n as usize)).collect()).unwrap_or_default();
+            match crate::sched::replay(v["scenario"].as_str().unwrap_or(""), &sch) {
+                Some((c, d)) => {
+                    println!("REPRODUCED {c}: {d}");
+                    1
+                }
+                None => {
+                    println!("not reproduced");
+                    0
+                }
+            }
+        }
         _ => machinery("unknown replay engine"),
     }
 }
